@@ -50,6 +50,10 @@ CLAIMED = {
          "Decides header dispatch and local-type extraction for all 256 header bytes exactly, that a definition is stored only under its own local type, that a missing definition is an error, and that definitions share no storage and carry their own byte order. These are the structural reasons slots are independent; decoded values of interleavings are not computed.",
          "Trusted: guard transfer functions (& const, >> const, comparisons); dominator tree. Not decided: values decoded from interleaved streams.",
          "DESIGN.md 4 C13"),
+ "C12": ("other", "paired-update and who-may-write rules on the reference-time state (SSA), normal-form recognition of the compressed update, guard dominance, constant and conversion-shape checks",
+         "Decides the state discipline the time rules rest on: only the UTC field 253 and the compressed branch re-base the reference, each re-base updates the 5-bit offset with it, the update has the rollover form, invalid values are skipped, and the epoch/zone conversions have the documented shapes. Sequence arithmetic over long runs is a consequence of the recognised formula and is not computed.",
+         "Trusted: time package semantics; recognised normal form of the compressed update (an equivalent rewrite is reported as undecided, not accepted silently). Not decided: computed values over sequences.",
+         "DESIGN.md 4 C12"),
 }
 
 NOT_APPLICABLE = {
